@@ -462,7 +462,8 @@ def run_check(pid, tier, seed, replay=None):
                 "Coq 8.16.1 kernel incl. vm_compute (no native_compute, no extraction)",
                 "axioms reported by Print Assumptions for the theorems of Properties/%s.v: %s" % (pid, ", ".join(axioms) if axioms else ("none (closed under the global context)" if axioms == [] else "unavailable")),
                 "tools/extract.py (translator /repo -> Gen/Src.v), tools/props/%s.py + tools/pyval.py + tools/corr.py (correspondence harness)" % pid,
-                "hand-written model coq/Model/*.v, tied to /repo by the correspondence below",
+                "tools/extract_leaf.py (translator of function bodies, /repo -> Gen/Leaf_*.v; its output is proved equal to the model in Tie/Leaf_*.v, listed among the obligations)",
+                "hand-written model coq/Model/*.v, tied to /repo by those equalities and by the correspondence below",
             ],
             theorems=names,
             obligation_list=[dict(name=o[0], ok=bool(o[1])) for o in obligations],
